@@ -351,6 +351,9 @@ def checkStep (e : Env) (pre : Sys) (op : Op) (res : Res) (post : Sys) (origin :
    | _ => []) ++
   -- C19
   (if res = .ok then (faultViolations pre.st post.st op).map (fun v => ("C19", s!"clause=faultReport cls=none rec={v}")) else []) ++
+  -- C17: the input assumptions of the registry invariants (Properties/C17KeyPay, C17SidPay) hold of this operation in
+  -- the implementation's own pre-state; a hit means the *harness* described an account id or a DID inconsistently
+  (if opWfIn pre.st.did op then [] else [("C17", "clause=inputWf cls=none")]) ++
   -- C17: a binding was created although the signed proof message does not name the DID
   (match op, res with
    | .binding m, .ok => if m.proofNamesDid then [] else [("C17", "clause=proofNamesDid cls=unbound-message")]
